@@ -2,7 +2,7 @@ from __future__ import annotations
 
 from collections import deque
 
-from dask.core import istask, subs
+from dask.core import istask
 
 
 def head(task):
@@ -187,10 +187,10 @@ class RewriteRule:
         self.vars = tuple(sorted(set(self._varlist)))
 
     def _apply(self, sub_dict):
-        term = self.rhs
-        for key, val in sub_dict.items():
-            term = subs(term, key, val)
-        return term
+        # All variables are replaced at once: substituting them one after the
+        # other would substitute again inside an already inserted value that
+        # happens to contain the name of a later variable.
+        return _substitute(self.rhs, sub_dict)
 
     def __str__(self):
         return f"RewriteRule({self.lhs}, {self.rhs}, {self.vars})"
@@ -410,6 +410,20 @@ def _match(S, N):
             restore_state_flag = True
         except Exception:
             return
+
+
+def _substitute(term, sub_dict):
+    """Replace every variable of ``sub_dict`` occurring in ``term`` by its value"""
+    if istask(term):
+        return term[:1] + tuple(_substitute(arg, sub_dict) for arg in term[1:])
+    if isinstance(term, list):
+        return [_substitute(arg, sub_dict) for arg in term]
+    try:
+        if term in sub_dict:
+            return sub_dict[term]
+    except TypeError:  # not hashable
+        pass
+    return term
 
 
 def _instantiates(pattern, vars, subs, term):
